@@ -2,7 +2,7 @@
 (* Judges what fake clients and backends of the live rig observed.  Lines:
      {"ev":"reset","kind":..}
      {"ev":"csend","k":n,"n":bytes}      {"ev":"release"}
-     {"ev":"brecv","k":n,"n":bytes}      {"ev":"disc"}
+     {"ev":"brecv","k":n,"n":bytes}      {"ev":"disc"}      {"ev":"lose"}
      {"ev":"end","alive":b}
    Runs are independent: the first line of a run that the acceptor does not allow is
    recorded (rej) and the rest of that run is skipped, so one TLC pass judges every run. *)
@@ -18,15 +18,17 @@ Keep == UNCHANGED <<rej, skip>>
 
 TReset == /\ IsEv("reset")
           /\ asent' = <<>> /\ abytes' = 0 /\ arecv' = 0 /\ apre' = 0 /\ apreb' = 0
-          /\ arel' = FALSE /\ adisc' = FALSE /\ skip' = FALSE /\ UNCHANGED rej
+          /\ arel' = FALSE /\ adisc' = FALSE /\ aopt' = 0 /\ arelat' = 0 /\ aheldn' = 0 /\ aheldb' = 0
+          /\ skip' = FALSE /\ UNCHANGED rej
 TSkip == /\ skip /\ l <= Len(Trace) /\ Trace[l].ev # "reset" /\ l' = l + 1
          /\ UNCHANGED <<avars, rej, skip>>
 TSend == ~skip /\ IsEv("csend") /\ IF GSend(Rec.k, Rec.n) THEN ASend(Rec.k, Rec.n) /\ Keep ELSE Reject
 TRel == ~skip /\ IsEv("release") /\ ARelease /\ Keep
+TLose == ~skip /\ IsEv("lose") /\ ALose /\ Keep
 TRecv == ~skip /\ IsEv("brecv") /\ IF GRecv(Rec.k, Rec.n) THEN ARecv(Rec.k, Rec.n) /\ Keep ELSE Reject
 TDisc == ~skip /\ IsEv("disc") /\ IF GDisc THEN ADisc /\ Keep ELSE Reject
 TEnd == ~skip /\ IsEv("end") /\ IF GEnd(Rec.alive) THEN AEnd(Rec.alive) /\ Keep ELSE Reject
-TNext == TReset \/ TSkip \/ TSend \/ TRel \/ TRecv \/ TDisc \/ TEnd
+TNext == TReset \/ TSkip \/ TSend \/ TRel \/ TLose \/ TRecv \/ TDisc \/ TEnd
 TSpec == TInit /\ [][TNext]_tv
 Verdict == (l > Len(Trace)) => PrintT(<<"REJECTED", ToJson([lines |-> rej])>>)
 =============================================================================
